@@ -90,7 +90,7 @@ theorem decode_header_prefix_error (t : RawTriangle) (n : Nat) (hn : n < 5) :
 /-- the Spec predicate the driver runs on what the IMPLEMENTATION returned for a torn file holds
 for whatever the model returns -/
 theorem spec_prefixSafe (t : RawTriangle) (h : wf t = true) (n : Nat) (hn : n < (encode t).length)
-    (r : RawTriangle) (hr : decode ((encode t).take n) = .ok r) : Spec.prefixSafe t r = true := by
+    (r : RawTriangle) (hr : decode ((encode t).take n) = .ok r) : Spec.C19.prefixSafe t r = true := by
   rcases decode_prefix_safe t h n hn with ⟨e, he⟩ | ⟨k, hk⟩
   · rw [he] at hr; cases hr
   · rw [hk] at hr
